@@ -18,7 +18,7 @@ From Coq Require Import NArith String.
 From RV Require Export Lib.Hex Model.Crdt Model.Store Model.Persist Corr.Common Corr.C07.
 
 (* the variant /repo currently implements *)
-Definition in_repo : variant := Variant true true false true.
+Definition in_repo : variant := Variant true true true true.
 
 Definition D (k : string) (v : rvalue) (src : N) : delta := Delta (unhex k) v src.
 Notation OK := OOk.
